@@ -2665,7 +2665,19 @@ class NetCDFRead(IORead):
         # node coordinate variables) must span a single dimension of
         # the parent variable; and the part node count variable must
         # span a single dimension.
-        parent_dimensions = g["variable_dimensions"][parent_ncvar]
+        parent_dimensions = tuple(g["variable_dimensions"][parent_ncvar])
+        domain_dimensions = g["variable_attributes"][parent_ncvar].get(
+            "dimensions"
+        )
+        if domain_dimensions is not None:
+            # The parent is a domain variable, which names its
+            # dimensions with its 'dimensions' attribute. CF>=1.9
+            parent_dimensions += tuple(
+                self._split_string_by_white_space(
+                    parent_ncvar, domain_dimensions, variables=True
+                )
+            )
+
         node_dimensions = [
             g["variable_dimensions"][ncvar]
             for ncvar in parsed_node_coordinates
